@@ -208,7 +208,8 @@ class ControlVariates:
         sigma_x = covariance[0:-1, 0:-1]
         sigma_xy = covariance[0:-1, -1]
         try:
-            if np.amin(np.absolute(sigma_x)) < 1e-12:
+            # a control with (numerically) no variance cannot be used; uncorrelated controls are fine
+            if np.amin(np.absolute(np.diag(sigma_x))) < 1e-12:
                 b_star = np.zeros_like(sigma_xy)
             else:
                 inv_sigma_x = np.linalg.inv(sigma_x)
